@@ -265,9 +265,15 @@ func (g *G) planBody(b *schema.BodySchema, depth int, parentAddr string) *BodyPl
 			for i := 0; i < n; i++ {
 				bp.Items = append(bp.Items, &Item{Block: g.planBlock(bt, bs, depth-1)})
 			}
-			if ext != nil && ext.DynamicBlocks && bs.Body != nil && !g.O.Simple && ((!tight && g.coin(0.25)) || (short && g.coin(0.6))) {
+			if ext != nil && ext.DynamicBlocks && bs.Body != nil && !(g.O.Simple && b.AnyAttribute != nil) && ((!tight && g.coin(0.25)) || (short && g.coin(0.6))) {
 				blk := g.planBlock(bt, bs, depth-1)
 				blk.Dynamic = true
+				if g.O.Simple {
+					// the content of a dynamic block has the static body of its type
+					// (labels are not available to select a dependent body)
+					blk.Body = g.planBody(bs.Body, depth-2, "")
+					blk.DepKey = -1
+				}
 				bp.Items = append(bp.Items, &Item{Block: blk})
 			}
 		}
@@ -495,9 +501,16 @@ func (g *G) pinAttr(bp *BodyPlan, name string, kind, want int, as *schema.Attrib
 }
 
 var typeDecls = []string{"string", "number", "bool", "any", "list(string)", "map(number)", "set(any)",
-	"object({ a = string, b = optional(number) })", "tuple([string, bool])", "map(object({ x = list(string) }))", "object({})"}
+	"object({ a = string, b = optional(number) })", "tuple([string, bool])", "map(object({ x = list(string) }))", "object({})",
+	// half-typed forms as bracket auto-closing leaves them
+	"tuple()", "list()", "object()", "map()", "set()", "tuple([])", "list(tuple())", "object({ a = tuple() })", "optional()", "object({ a = optional() })", "map(list())"}
 
-func (g *G) typeDecl() string { return typeDecls[g.pick(len(typeDecls))] }
+func (g *G) typeDecl() string {
+	if g.O.NoOddities || g.O.Simple {
+		return typeDecls[g.pick(11)] // complete forms only
+	}
+	return typeDecls[g.pick(len(typeDecls))]
+}
 
 // ---------------------------------------------------------------- pass 2
 
